@@ -5,6 +5,7 @@
 package objsim
 
 import (
+	"runtime"
 	"bytes"
 	"fmt"
 	"os"
@@ -23,6 +24,7 @@ import (
 	"github.com/named-data/ndnd/std/object"
 	sec "github.com/named-data/ndnd/std/security"
 
+	"verifsim/facesim"
 	"verifsim/kit"
 )
 
@@ -48,6 +50,10 @@ type Op struct {
 	// instant is what survives) and a new producer starts on the durable state. DelayMs == 0: now; > 0: that long
 	// after the next consume has started.
 	// storeop: differential operations on both store implementations
+	// net, act corrupt / corruptdata (C04 runs only): the packet is altered in transit
+	Mut string `json:"mut,omitempty"`
+	At  int    `json:"at,omitempty"`
+	Val uint64 `json:"val,omitempty"`
 	SOp   string `json:"sop,omitempty"` // put remove removeprefix get getprefix begin commit rollback
 	SName string `json:"sname,omitempty"`
 	SVer  uint64 `json:"sver,omitempty"`
@@ -154,6 +160,30 @@ func (Engine) Generate(prop string, r *kit.Rand, tier string) *kit.Scenario[Conf
 		}
 		o.DelayMs = kit.Pick(r, []int{1, 10, 100, 500, 900, 1500, 3900, 4100})
 		sc.Ops = append(sc.Ops, o)
+	}
+	if prop == "C04" {
+		huge := []uint64{0, 1, 2, 127, 252, 253, 254, 255, 256, 65535, 65536, 1 << 31, 1<<32 - 1, 1 << 32, 1<<63 - 1, 1 << 63, 1<<64 - 1}
+		for i, n := 0, r.Range(2, 12); i < n; i++ {
+			o := Op{Op: "net", Seg: r.Range(-1, maxSegs-1), Attempt: r.Weighted([]int{6, 3, 2, 1}), Act: kit.Pick(r, []string{"corrupt", "corruptdata", "corruptdata", "corruptdata"})}
+			if second && r.Bool() {
+				o.Obj = 1
+			}
+			switch r.Weighted([]int{4, 5, 2, 3, 3, 2}) {
+			case 0:
+				o.Mut, o.At, o.Val = "len", r.Intn(64), kit.Pick(r, huge)
+			case 1:
+				o.Mut, o.At, o.Val = "lenfix", r.Intn(64), kit.Pick(r, huge)
+			case 2:
+				o.Mut, o.At = "trunc", r.Intn(9000)
+			case 3:
+				o.Mut, o.At, o.Val = "flip", r.Intn(9000), uint64(1+r.Intn(255))
+			case 4:
+				o.Mut, o.At, o.Val = "type", r.Intn(64), uint64(r.Intn(256))
+			case 5:
+				o.Mut, o.At, o.Val = "insert", r.Intn(9000), uint64(r.Intn(1<<16))
+			}
+			sc.Ops = append(sc.Ops, o)
+		}
 	}
 	if second && r.Chance(0.5) {
 		// one fetch loses a segment for good while the other still has all its Interests outstanding
@@ -369,6 +399,11 @@ func (e Engine) run(ctx *kit.Ctx, sc *kit.Scenario[Config, Op], res *kit.Result,
 	now := func() time.Duration { return time.Since(start) }
 	step := 0
 	fail := func(class, key, format string, a ...any) {
+		// a C04 run corrupts packets in transit (nothing validates signatures here): what the fetch returns is
+		// not judged, only that nothing crashes, hangs or allocates out of proportion
+		if sc.Property == "C04" && !strings.HasPrefix(class, "C04/") {
+			return
+		}
 		if res.Violation == nil {
 			res.Violation = &kit.Violation{Class: class, Key: key, Step: step, Detail: fmt.Sprintf(format, a...)}
 		}
@@ -485,6 +520,7 @@ func (e Engine) run(ctx *kit.Ctx, sc *kit.Scenario[Config, Op], res *kit.Result,
 		}
 	}
 	pendingRestart := []*Op{}
+	corrupted := 0
 
 	suffix := ""
 	for i := 1; i < sc.Config.NameDepth; i++ {
@@ -494,6 +530,7 @@ func (e Engine) run(ctx *kit.Ctx, sc *kit.Scenario[Config, Op], res *kit.Result,
 	type fault struct {
 		act   string
 		delay time.Duration
+		op    *Op
 	}
 	faults := map[string]*fault{} // "obj|seg|attempt|interest/data"
 	dropsPerSeg := map[[2]int]int{}
@@ -560,7 +597,7 @@ func (e Engine) run(ctx *kit.Ctx, sc *kit.Scenario[Config, Op], res *kit.Result,
 			if strings.HasSuffix(act, "data") {
 				kind, act = "data", strings.TrimSuffix(act, "data")
 			}
-			faults[fmt.Sprintf("%d|%d|%d|%s", ob, o.Seg, o.Attempt, kind)] = &fault{act: act, delay: time.Duration(o.DelayMs) * time.Millisecond}
+			faults[fmt.Sprintf("%d|%d|%d|%s", ob, o.Seg, o.Attempt, kind)] = &fault{act: act, delay: time.Duration(o.DelayMs) * time.Millisecond, op: o}
 			// a dropped transmission costs the name one of its four attempts; so does one
 			// delayed to (nearly) the Interest lifetime (1 s for metadata, 4 s for segments)
 			limit := 3500
@@ -677,6 +714,10 @@ func (e Engine) run(ctx *kit.Ctx, sc *kit.Scenario[Config, Op], res *kit.Result,
 			reordered, retrans := false, false
 			lastDeliveredSeg := [2]int{-1, -1}
 			consumeStart := now()
+			var ms0 runtime.MemStats
+			if sc.Property == "C04" {
+				runtime.ReadMemStats(&ms0)
+			}
 			for {
 				// quiescence first: the completion callbacks run on the client's goroutine
 				synctest.Wait()
@@ -707,6 +748,9 @@ func (e Engine) run(ctx *kit.Ctx, sc *kit.Scenario[Config, Op], res *kit.Result,
 							continue
 						case "delay":
 							at += fl.delay
+						case "corrupt":
+							f = facesim.Mutate(f, fl.op.Mut, fl.op.At, fl.op.Val)
+							corrupted++
 						case "dup":
 							seq++
 							queue = append(queue, inflight{at: at + fl.delay, seq: seq, toP: true, frame: f})
@@ -737,6 +781,9 @@ func (e Engine) run(ctx *kit.Ctx, sc *kit.Scenario[Config, Op], res *kit.Result,
 							continue
 						case "delay":
 							at += fl.delay
+						case "corrupt":
+							f = facesim.Mutate(f, fl.op.Mut, fl.op.At, fl.op.Val)
+							corrupted++
 						case "dup":
 							seq++
 							queue = append(queue, inflight{at: at + fl.delay, seq: seq, toP: false, frame: f})
@@ -812,6 +859,20 @@ func (e Engine) run(ctx *kit.Ctx, sc *kit.Scenario[Config, Op], res *kit.Result,
 			time.Sleep(20 * time.Second)
 			synctest.Wait()
 			pendingRestart = nil
+			if sc.Property == "C04" {
+				var ms1 runtime.MemStats
+				runtime.ReadMemStats(&ms1)
+				total := 0
+				for _, f := range fetches {
+					total += len(f.want)
+				}
+				if grown := ms1.TotalAlloc - ms0.TotalAlloc; grown > 64<<20+200*uint64(total) {
+					fail("C04/allocation-out-of-proportion", "object-fetch", "fetching %d bytes of objects over a corrupting link allocated %d bytes", total, grown)
+				}
+				if corrupted > 0 {
+					res.NonTrivial = true
+				}
+			}
 			for _, f := range fetches {
 				key := fmt.Sprintf("%s/segs=%d", sc.Config.Store, min(f.nseg, 3))
 				if len(fetches) == 2 {
@@ -848,7 +909,7 @@ func (e Engine) run(ctx *kit.Ctx, sc *kit.Scenario[Config, Op], res *kit.Result,
 	res.SimNanos = int64(now())
 	d := kit.NewDigest().S(sc.Config.Store).I(sc.Config.SpareCap)
 	for _, o := range sc.Ops {
-		d.S(o.Op).I(o.Obj).U(o.Version).I(o.Size).I(o.Seg).I(o.Attempt).S(o.Act).I(o.DelayMs).S(o.SOp).S(o.SName)
+		d.S(o.Op).I(o.Obj).U(o.Version).I(o.Size).I(o.Seg).I(o.Attempt).S(o.Act).I(o.DelayMs).S(o.SOp).S(o.SName).S(o.Mut).I(o.At).U(o.Val)
 	}
 	res.Digest = d.Sum()
 	ctx.State(res.Digest)
